@@ -6,6 +6,20 @@ import os
 ROOT = os.path.dirname(os.path.dirname(os.path.abspath(__file__)))
 
 CLAIMED = {
+    "C15": dict(
+        category="model_checking",
+        technique="TLA+ lookup-table model under file permutations (TLC: order independence of the intended table, "
+                  "documented violation of the as-built one) + every permutation x source/reference assignment of "
+                  "generated multi-file programs compiled, repeated binary runs, validated by a TLA+ trace specification",
+        text="MC_Collide checks that with the intended table a definition and a same-named nested module of another file "
+             "resolve identically under every permutation of the files (the pinned last-writer-wins table violates it, "
+             "kept as a documented as-built run). Collision arrangements and simulate-mode multi-file programs are "
+             "compiled under all permutations x all source/reference assignments (48 runs for 3 files) through "
+             "compile_from_options on real files, and the binary is run 3 (5) times in fresh processes; Trace_Repro "
+             "demands equal acceptance, equal per-file AST digests, equal warning multisets, byte-identical stderr and "
+             "generator requests.",
+        note="Per-file content is a digest of the projected AST. Sampled beyond 3 files.",
+        design_ref="5 (C15), 4 (Repro, NameTable)"),
     "C03": dict(
         category="model_checking",
         technique="TLA+ declarative scope search vs operational last-writer-wins table + popping walk (TLC, every "
